@@ -237,4 +237,26 @@ def syncEdges : List String :=
   ["FetcherFetchOnly", "DutyDBStore", "ParSigDBStoreInternal", "ParSigDBStoreExternal", "SigAggAggregate",
    "AggSigDBStore"]
 
+/-! ### a call through a wrapped edge (core/retry.go)
+
+`w.X = func(ctx, duty, set) error { go retryer.DoAsync(ctx, duty, topic, name, func(ctx) error { return
+clone.X(ctx, duty, set) }); return nil }`: one DoAsync call under the edge's label whose deadline is the duty's;
+every attempt invokes the inner function with the pair (duty, set) the closure captured. -/
+
+structure WCall where
+  edge : Nat      -- index into `wrappedEdges`
+  duty : Nat
+  set  : Nat
+  deriving DecidableEq, Repr
+
+/-- the retryer op a call of a wrapped edge is. -/
+def WCall.op (id : Nat) (w : WCall) : Op := .call id w.edge true false
+
+/-- the invocations of the inner functions (edge, duty, set) that a list of events amounts to, given which
+wrapped call each retryer call is: one per attempt start, with the pair captured by THAT call. -/
+def invocations (cap : Nat → Option WCall) (evs : List Ev) : List WCall :=
+  evs.filterMap fun e => match e with
+    | .start id _ _ => cap id
+    | _ => none
+
 end CharonV.Retry
